@@ -73,6 +73,8 @@ def dict_event_factory(trait_dict, removed, added, changed):
     # instead.
     removed = removed.copy()
     removed.update(changed)
+    # Work on a copy: the same dicts are passed to every notifier.
+    added = added.copy()
     for key in changed:
         added[key] = trait_dict[key]
     return DictChangeEvent(
